@@ -283,6 +283,15 @@ impl Default for C32 {
     }
 }
 
+/// One composed kind / size conversion: where each position of the result comes from
+/// (`i >= 0`: the value's own element i; `-(j+1)`: the j-th extra element handed in). Every own or
+/// extra element that does not appear in `result` must be destroyed exactly once by the conversion.
+pub struct KcSpec {
+    pub name: &'static str,
+    pub extras: usize,
+    pub result: &'static [i8],
+}
+
 /// A vek vector type instantiated at element type `X`.
 pub trait Kind<X: Item>: 'static {
     const N: usize;
@@ -318,12 +327,22 @@ pub trait Kind<X: Item>: 'static {
     fn v_observe_eq(a: &Self::V, b: &Self::V) -> bool;
     fn v_observe_display(v: &Self::V) -> usize;
     fn v_clone(v: &Self::V) -> Self::V;
+    fn v_clone_from(dst: &mut Self::V, src: &Self::V);
     /// `v.map(f)` with `f: FnMut(X) -> X`
     fn v_map<F: FnMut(X) -> X>(v: Self::V, f: F) -> Self::V;
     /// `a.zip(b).map(|(x, y)| f(x, y))`
     fn v_zip_map<F: FnMut(X, X) -> X>(a: Self::V, b: Self::V, f: F) -> Self::V;
     /// `a.map2(b, f)`
     fn v_map2<F: FnMut(X, X) -> X>(a: Self::V, b: Self::V, f: F) -> Self::V;
+    /// `a.map3(b, c, f)`
+    fn v_map3<F: FnMut(X, X, X) -> X>(a: Self::V, b: Self::V, c: Self::V, f: F) -> Self::V;
+    /// `v.reduce(f)`
+    fn v_reduce<F: FnMut(X, X) -> X>(v: Self::V, f: F) -> X;
+    /// kind / size conversions available for this vector type with no bound on the element type
+    /// (`From<other kind>`, `From<(smaller, scalar)>`, truncating `From<larger>`), each composed so
+    /// that it ends in this type again
+    fn kc_specs() -> &'static [KcSpec];
+    fn v_kind_conv(v: Self::V, variant: usize, extras: Vec<X>) -> Self::V;
     /// `V::<u32>::from_slice(s)` read back through the public fields in declaration order.
     fn from_slice_u32(s: &[u32]) -> Vec<u32>;
 
@@ -426,9 +445,14 @@ macro_rules! kind {
                 s.0
             }
             fn v_clone(v: &Self::V) -> Self::V { v.clone() }
+            fn v_clone_from(dst: &mut Self::V, src: &Self::V) { dst.clone_from(src) }
             fn v_map<F: FnMut(X) -> X>(v: Self::V, f: F) -> Self::V { v.map(f) }
             fn v_zip_map<F: FnMut(X, X) -> X>(a: Self::V, b: Self::V, mut f: F) -> Self::V { a.zip(b).map(|(x, y)| f(x, y)) }
             fn v_map2<F: FnMut(X, X) -> X>(a: Self::V, b: Self::V, f: F) -> Self::V { a.map2(b, f) }
+            fn v_map3<F: FnMut(X, X, X) -> X>(a: Self::V, b: Self::V, c: Self::V, f: F) -> Self::V { a.map3(b, c, f) }
+            fn v_reduce<F: FnMut(X, X) -> X>(v: Self::V, f: F) -> X { v.reduce(f) }
+            fn kc_specs() -> &'static [KcSpec] { crate::kindconv::$K::SPECS }
+            fn v_kind_conv(v: Self::V, variant: usize, extras: Vec<X>) -> Self::V { crate::kindconv::$K::conv::<X>(v, variant, extras) }
             fn from_slice_u32(s: &[u32]) -> Vec<u32> {
                 // a Copy element whose Default is not the all-zero bit pattern
                 let src: Vec<C32> = s.iter().map(|x| C32(*x)).collect();
